@@ -219,10 +219,72 @@ def run(case):
     return out
 
 
+class EventClock:
+    """time-module double whose time depends only on HOW MANY EVENTS have been handled so far (step seconds per event): every
+    reader sees the same time while one event is being handled, whatever the number of readers."""
+
+    def __init__(self, events, step_s):
+        self.events, self.step_s = events, step_s
+
+    def time(self):
+        return BASE_S + len(self.events) * self.step_s
+
+    def __getattr__(self, name):
+        import time as real
+        return getattr(real, name)
+
+
+def run_multi(case):
+    """Several file backends at once ("multi": ["json", "xml", ...]) under one saving strategy: at which events (count of events
+    handled so far) was each backend's report file rewritten?  -> {"outcome":…, "n_events": n, "refresh": {name: [k…]}}"""
+    import corun
+    import lemoncheesecake.events as lcc_events
+    import lemoncheesecake.reporting.backend as lcc_backend
+    import lemoncheesecake.reporting.savingstrategy as lcc_strategy
+    from lemoncheesecake.reporting.backends import JsonBackend, XmlBackend, JunitBackend
+    names = list(case["multi"])
+    fnames = {n: {"json": JsonBackend, "xml": XmlBackend, "junit": JunitBackend}[n]().get_report_filename() for n in names}
+    events, refresh, last, state = [], {n: [] for n in names}, {n: None for n in names}, {"dir": None}
+
+    class MultiSession(corun.RecordingSession):
+        def handle(self, event):
+            super().handle(event)
+            events.append(1)
+            for n in names:
+                path = os.path.join(state["dir"], fnames[n])
+                if os.path.exists(path):
+                    with open(path, "rb") as fh:
+                        data = fh.read()
+                    if data != last[n]:
+                        last[n] = data
+                        refresh[n].append(len(events))
+
+    class MultiBackend(corun.RecordingBackend):
+        def create_reporting_session(self, report_dir, report, parallel, report_saving_strategy):
+            state["dir"] = report_dir
+            s = MultiSession(self.stream, self.fault, self.names)
+            for cls in lcc_events.EventManager._get_event_classes():
+                setattr(s, "on_" + cls.get_name(), s.handle)
+            return s
+    saved = (corun.RecordingBackend, lcc_events.time, lcc_backend.time, lcc_strategy.time)
+    corun.RecordingBackend = MultiBackend
+    clock = EventClock(events, float(case.get("seconds_per_event", 100)))
+    lcc_backend.time = clock
+    lcc_strategy.time = clock
+    try:
+        c = dict(case)
+        c["file_backends"] = names
+        c["file_first"] = True
+        res = corun.run_case(c, watchdog=case.get("watchdog", 60.0))
+    finally:
+        corun.RecordingBackend, lcc_events.time, lcc_backend.time, lcc_strategy.time = saved
+    return {"outcome": res.get("outcome"), "traceback": res.get("traceback"), "n_events": len(events), "refresh": refresh}
+
+
 def main():
     case = json.loads(sys.stdin.read())
     try:
-        res = run(case)
+        res = run_multi(case) if case.get("multi") else run(case)
     except Exception:
         res = {"outcome": ["driver_error", traceback.format_exc()[-3000:]]}
     sys.stdout.write("\n" + json.dumps(res, default=str) + "\n")
